@@ -918,8 +918,8 @@ class FnTranslator:
                     return A('gen_predicated_view', [obj, RQ]), OPT('tag')
                 if ty == 'body':       # the wrapped view itself: its body runs and answers with its tag
                     return A('Some', [A('r_tag', [obj])]), OPT('tag')
-                if ty == 'pred':       # a predicate object: its __call__ (eval_pred; per-class bodies are gen_pred_*)
-                    return A('eval_pred', [RQ, obj]), 'bool'
+                if ty == 'pred':       # a predicate object: its __call__ (dispatch in the glue gen_eval_pred)
+                    return A('gen_eval_pred', [RQ, obj]), 'bool'
                 return A('custom_truth', [RQ, obj]), 'bool'      # CustomPredicate.func: a truth table (oracle)
             if ty == 'factory' and len(args) == 2:               # predicate_factory(realval, info): may raise (config error)
                 vo, vt = self.expr(args[0], env)
@@ -1286,7 +1286,7 @@ def _pred(cls, gen, sig, attrs, selfty='self'):
                 ret_conv=conv_id('bool'))
 
 
-FUNCS += [
+_PRED_FUNCS = [
     _pred('XHRPredicate', 'gen_pred_xhr', '(b : bool)', {'val': (V('b'), 'bool')}),
     _pred('RequestMethodPredicate', 'gen_pred_request_method', '(vals : list text)', {'val': (V('vals'), LIST('text'))}),
     _pred('PathInfoPredicate', 'gen_pred_path_info', '(pat : text)', {'val': (V('pat'), 'regex')}),
@@ -1301,6 +1301,27 @@ FUNCS += [
     _pred('CustomPredicate', 'gen_pred_custom', '(i : N)', {'func': (V('i'), 'customfn')}),
     _pred('Notted', 'gen_pred_not', '(p : pred)', {'predicate': (V('p'), 'pred')}, selfty='selfnot'),
 ]
+
+
+FUNCS = _PRED_FUNCS + [dict(glue='''(* GLUE (table): calling a predicate object runs the __call__ of its class (the constructor of the model's [pred]);
+   third-party predicates are truth tables (nothing to translate); the inner call of Notted stays eval_pred *)
+Definition gen_eval_pred (rq : request) (p : pred) : bool :=
+  match p with
+  | PXhr v => gen_pred_xhr v rq
+  | PMethod vals => gen_pred_request_method vals rq
+  | PPathInfo o => gen_pred_path_info o rq
+  | PParam reqs => gen_pred_request_param reqs rq
+  | PHeader vals => gen_pred_header vals rq
+  | PAccept values => gen_pred_accept values rq
+  | PContainment i _ => gen_pred_containment i rq
+  | PMatchParam reqs => gen_pred_match_param reqs rq
+  | PPhysPath val => gen_pred_physical_path val rq
+  | PIsAuth v => gen_pred_is_authenticated v rq
+  | PCustom i => gen_pred_custom i rq
+  | PThird i ph => eval_pred rq (PThird i ph)
+  | PNot q => gen_pred_not q rq
+  end.
+''')] + FUNCS
 
 PRELUDE = '''(* GENERATED by harness/c03/translate.py from /repo/src on every run -- do not edit.
    Control flow translated mechanically; leaves through the primitive table of that file. *)
